@@ -90,29 +90,23 @@ fn c17_q_base38_chunk_decode_safe() {
     }
 }
 
-/// The public decoder on every ASCII string of <= 6 characters (one full chunk + a tail, hostile
-/// characters included): an error is reported iff the string has an illegal character or an
-/// illegal tail length (the documented contract of `decode` / `QrPayload::parse`); otherwise
-/// the number of bytes is the one the chunking prescribes.
-#[cfg_attr(kani, kani::proof)]
-#[cfg_attr(kani, kani::unwind(8))]
-#[cfg_attr(not(kani), test)]
-fn c17_q_base38_decode_refuses_invalid_6() {
-    let b: [u8; 6] = any_bytes::<6>();
-    let n = any_usize();
-    assume(n <= 6);
+/// The public decoder on every ASCII string of exactly N characters (hostile characters
+/// included): an error is reported iff the string has an illegal character or an illegal tail
+/// length (the documented contract of `decode` / `QrPayload::parse`); otherwise the number of
+/// bytes is the one the chunking prescribes. One harness per length (a symbolic length does not
+/// finish: 600 s).
+fn decode_refuses_invalid<const N: usize>() {
+    let b: [u8; N] = any_bytes::<N>();
     let mut legal = true;
     let mut i = 0;
-    while i < 6 {
+    while i < N {
         assume(b[i] < 0x80);
-        if i < n {
-            let c = b[i];
-            legal &= (c >= b'0' && c <= b'9') || (c >= b'A' && c <= b'Z') || c == b'-' || c == b'.';
-        }
+        let c = b[i];
+        legal &= (c >= b'0' && c <= b'9') || (c >= b'A' && c <= b'Z') || c == b'-' || c == b'.';
         i += 1;
     }
     // SAFETY: all bytes are ASCII
-    let s = unsafe { core::str::from_utf8_unchecked(&b[..n]) };
+    let s = unsafe { core::str::from_utf8_unchecked(&b) };
     let mut oks = 0;
     let mut errs = 0;
     let mut after_err = 0;
@@ -125,16 +119,34 @@ fn c17_q_base38_decode_refuses_invalid_6() {
         } else {
             oks += 1;
         }
-        vassert!(oks + errs <= 5, "ROLE:base38-decode-terminates");
+        vassert!(oks + errs <= N, "ROLE:base38-decode-terminates");
     }
-    let tail = n % 5;
+    let tail = N % 5;
     let well_formed = legal && tail != 1 && tail != 3;
-    vcover!(well_formed && n == 6);
-    vcover!(!legal && n == 6);
+    vcover!(legal);
+    vcover!(!legal);
     vassert!((errs == 0) == well_formed, "ROLE:base38-decode-errors-exactly-on-malformed-input");
     vassert!(errs <= 1 && after_err == 0, "ROLE:base38-decode-stops-at-first-error");
     if well_formed {
-        let want = (n / 5) * 3 + match tail { 0 => 0, 2 => 1, _ => 2 };
+        let want = (N / 5) * 3 + match tail { 0 => 0, 2 => 1, _ => 2 };
         vassert!(oks == want, "ROLE:base38-decoded-length");
     }
 }
+
+macro_rules! decode_len {
+    ($name:ident, $n:literal) => {
+        #[cfg_attr(kani, kani::proof)]
+        #[cfg_attr(kani, kani::unwind(12))]
+        #[cfg_attr(not(kani), test)]
+        fn $name() {
+            decode_refuses_invalid::<$n>();
+        }
+    };
+}
+decode_len!(c17_q_base38_decode_refuses_invalid_len2, 2);
+decode_len!(c17_q_base38_decode_refuses_invalid_len3, 3);
+decode_len!(c17_q_base38_decode_refuses_invalid_len5, 5);
+decode_len!(c17_t_base38_decode_refuses_invalid_len4, 4);
+decode_len!(c17_t_base38_decode_refuses_invalid_len6, 6);
+decode_len!(c17_t_base38_decode_refuses_invalid_len7, 7);
+decode_len!(c17_t_base38_decode_refuses_invalid_len9, 9);
